@@ -102,14 +102,15 @@ def CASES(tier, seed):
         if tier == 'quick' and not first_pattern:
             continue
         ops = [o for o in opsA if P1.COST_A.get(tuple(o), 1.5) < (P1.HEAVY if st['mods'][0] != 3 else 3)]
-        if tier == 'thorough':
+        if tier == 'thorough':  # sized by CPU time: the quick variants below 30 s on the first pattern, core selection on the others
             from props.c02_invariants import CORE_OPS
-            ops = opsA if first_pattern else [o for o in opsA if tuple(o) in CORE_OPS]
+            qv = [(n, v) for n, sp in C.OPS.items() if 'A' in sp.tiers and n != 'norm' for v in sp.quick]
+            ops = [o for o in qv if P1.COST_A.get(tuple(o), 1.5) < 30] if first_pattern else [o for o in opsA if tuple(o) in CORE_OPS]
         for ci, chunk in enumerate(P1._balanced(ops, P1.COST_A, 10)):
             cases.append(dict(name=f"A[mod={st['mods']},qconj={[l['qconj'] for l in st['legs']]}]ops{ci}:{P1._opsname(chunk)}",
                               fn='alias_case', params=dict(struct=st, ops=chunk, cplx=(si % 4 == 0), subset='all',
                                                            prestate='sorted' if si % 4 else 'reversed',
-                                                           write_groups=2 if tier == 'quick' else 4), opts=OA))
+                                                           write_groups=2 if (tier == 'quick' or not first_pattern) else 3), opts=OA))
     OB = dict(max_paths=40000, max_wall_s=200 if tier == 'quick' else 1500, validate_paths=3, hard_timeout_s=230 if tier == 'quick' else 1700)
     for si, st in enumerate(P1.structs_B(tier, seed)):
         if (tier == 'quick' and si not in (0, 1, 2, 4, 7, 8, 9)) or st['rank'] > 3 or (tier != 'quick' and P1.dense_size(st) > 64):
